@@ -7,6 +7,7 @@
      ab248a0436d3ccd9c4ec7788de5265112ddbcb2db8a3d58fa9ae15f05c8799de  common/object/spatial_id.go
      8952ce9a88602c3577a2c7359550e7fdc2539a557b95c43c0851b3fac5101fc3  common/util.go
      989c360a64663db9ffa6ca74ba973c95de3fef8d312e50766d26f0f2e8b2e05f  integrate/change_zoom.go
+     fa85860ba1153c7b845f9be7470795f14647447237fae8b03ea1f23e47ae8ead  integrate/merge_zoom.go
      8dac45b8dd30d5efb41249df0231397e85ae7ade5c7cbccf111382311450ffc4  shape/line.go
      a7b52779d0e746dc0273ec11ba62cf1dc67176bcb8c1cbb57475aa9f12d7e308  shape/point.go
      97a8d24c37ca0c2a52f8db27c86a4726cb022e2313bdb9af41f2881bc6c919a8  transform/convert_quadkey_and_Vertical_id.go
@@ -229,6 +230,40 @@ let v_y := (Z.quot v_s_y v_hDiv) in
 let v_z := (Z.shiftr v_s_z v_vDiff) in
 (v_hZoom, v_x, v_y, v_vZoom, v_z).
 
+(* ---- values found by their role in the function (see TRANSLATOR-NOTES.md) ---- *)
+(* integrate.NewHighSpatialID (value threshold)  [integrate/merge_zoom.go] — the value of the field threshold of the returned composite literal (`threshold`) just before that statement *)
+Definition NewHighSpatialID_threshold (v_u_hDiff : Z) (v_u_vDiff : Z) (v_hDiff : Z) (v_vDiff : Z) : Z :=
+let v_hDiffIndex := (Z.pow 2 (Z.add v_hDiff v_u_hDiff)) in
+let v_vDiffIndex := (Z.pow 2 (Z.add v_vDiff v_u_vDiff)) in
+let v_threshold := (Z.mul (Z.mul v_hDiffIndex v_hDiffIndex) v_vDiffIndex) in
+v_threshold.
+
+(* transform.convertHorizontalIDToQuadkey  [transform/convert_quadkey_and_Vertical_id.go] — the condition of the function's 1. top-level for loop *)
+Definition convertHorizontalIDToQuadkey_condX (v_quadkey : Z) (v_i : Z) (v_xIndexTmp : Z) (v_hZoom : Z) : bool :=
+(andb (Z.gtb v_xIndexTmp 0) (Z.ltb v_i v_hZoom)).
+
+(* transform.convertHorizontalIDToQuadkey  [transform/convert_quadkey_and_Vertical_id.go] — one pass through the body of the function's 1. top-level for loop and its post statement: the new values of (quadkey, i, xIndexTmp) *)
+Definition convertHorizontalIDToQuadkey_stepX (v_quadkey : Z) (v_i : Z) (v_xIndexTmp : Z) (v_hZoom : Z) : (Z * Z * Z)%type :=
+let v_mx := (Z.rem v_xIndexTmp 2) in
+let v_x := v_mx in
+let v_xIndexTmp := (Z.quot v_xIndexTmp 2) in
+let v_quadkey := (Z.add v_quadkey (Z.shiftl v_x (Z.mul v_i 2))) in
+let v_i := (Z.add v_i 1) in
+(v_quadkey, v_i, v_xIndexTmp).
+
+(* transform.convertHorizontalIDToQuadkey  [transform/convert_quadkey_and_Vertical_id.go] — the condition of the function's 2. top-level for loop *)
+Definition convertHorizontalIDToQuadkey_condY (v_quadkey : Z) (v_i : Z) (v_yIndexTmp : Z) (v_hZoom : Z) : bool :=
+(andb (Z.gtb v_yIndexTmp 0) (Z.ltb v_i v_hZoom)).
+
+(* transform.convertHorizontalIDToQuadkey  [transform/convert_quadkey_and_Vertical_id.go] — one pass through the body of the function's 2. top-level for loop and its post statement: the new values of (quadkey, i, yIndexTmp) *)
+Definition convertHorizontalIDToQuadkey_stepY (v_quadkey : Z) (v_i : Z) (v_yIndexTmp : Z) (v_hZoom : Z) : (Z * Z * Z)%type :=
+let v_my := (Z.rem v_yIndexTmp 2) in
+let v_y := (Z.mul v_my 2) in
+let v_yIndexTmp := (Z.quot v_yIndexTmp 2) in
+let v_quadkey := (Z.add v_quadkey (Z.shiftl v_y (Z.mul v_i 2))) in
+let v_i := (Z.add v_i 1) in
+(v_quadkey, v_i, v_yIndexTmp).
+
 (* every definition of this file, for `autounfold with sidgen` *)
 Create HintDb sidgen.
 #[global] Hint Unfold GeoCrs : sidgen.
@@ -265,3 +300,8 @@ Create HintDb sidgen.
 #[global] Hint Unfold HorizontalZoomMinMax : sidgen.
 #[global] Hint Unfold VerticalZoom_minmax : sidgen.
 #[global] Hint Unfold ExtendedSpatialID_Higher : sidgen.
+#[global] Hint Unfold NewHighSpatialID_threshold : sidgen.
+#[global] Hint Unfold convertHorizontalIDToQuadkey_condX : sidgen.
+#[global] Hint Unfold convertHorizontalIDToQuadkey_stepX : sidgen.
+#[global] Hint Unfold convertHorizontalIDToQuadkey_condY : sidgen.
+#[global] Hint Unfold convertHorizontalIDToQuadkey_stepY : sidgen.
